@@ -465,7 +465,7 @@ impl<'a> Sim<'a> {
         if comp.end_time != end_before {
             self.obs.probe("end_moved");
             if !counted {
-                self.obs.probe("end_moved_without_counted_trade");
+                self.obs.probe("anomaly_end_moved_without_counted_trade");
             }
         }
         self.m.end = comp.end_time;
@@ -497,7 +497,7 @@ impl<'a> Sim<'a> {
         if out.ok {
             if existed {
                 if self.w.get(&pda).cloned() != before {
-                    self.obs.probe("idempotent_create_changed_account");
+                    self.obs.probe("anomaly_idempotent_create_changed_account");
                 }
             } else {
                 let now = self.w.clock.unix_timestamp;
@@ -527,7 +527,7 @@ impl<'a> Sim<'a> {
         if out.ok {
             let now = self.w.clock.unix_timestamp;
             if self.m.ongoing(now) {
-                self.obs.probe("closed_while_ongoing");
+                self.obs.probe("anomaly_closed_while_ongoing");
             }
             if self.m.parts.remove(&tr).is_none() {
                 panic!("closed a participant the model does not know");
@@ -652,8 +652,8 @@ impl<'a> Sim<'a> {
                     return (false, false);
                 }
                 // Not a C39 clause; the model cannot tell whom the program credited, so the run ends here.
-                self.obs.probe("byzantine_accepted");
-                self.obs.probe(&format!("byzantine_accepted_{}", twist.tag()));
+                self.obs.probe("anomaly_byzantine_accepted");
+                self.obs.probe(&format!("anomaly_byzantine_accepted_{}", twist.tag()));
                 return (false, false);
             }
             self.obs.fault(twist.tag());
@@ -666,7 +666,7 @@ impl<'a> Sim<'a> {
             if would_count && !live {
                 self.obs.probe("rejected_missing_participant");
             } else {
-                self.obs.probe("unexpected_reject");
+                self.obs.probe("anomaly_unexpected_reject");
                 self.obs.event(|| format!("unexpected reject: {} {:?}", out.class(), out.error));
             }
             return (false, false);
@@ -704,7 +704,7 @@ impl<'a> Sim<'a> {
         // diagnostics (not violations): the exact documented formula and the participant record
         if let Some(c) = read_competition(&self.w, &self.m.competition) {
             if c.end_time != info.end_expected {
-                self.obs.probe("diag_end_differs_from_formula");
+                self.obs.probe("anomaly_end_differs_from_formula");
             }
             if info.extension_expected {
                 let uncapped = (self.m.end as i128 + self.m.ext_duration as i128).min(i64::MAX as i128) as i64;
@@ -741,7 +741,7 @@ impl<'a> Sim<'a> {
         if let Some(p) = read_participant(&self.w, &pda) {
             let mp = &self.m.parts[&tr];
             if p.volume != mp.volume || p.merged_volume != mp.merged || p.last_updated_at != mp.last_updated_at {
-                self.obs.probe("diag_participant_differs_from_model");
+                self.obs.probe("anomaly_participant_differs_from_model");
             }
         }
         (true, info.extension_expected)
@@ -775,6 +775,34 @@ impl<'a> Sim<'a> {
         }
     }
 }
+
+/// Rare branches the scenario is expected to reach (registered at zero so that a stuck one shows up in the evidence).
+pub const REACH_PROBES: &[&str] = &[
+    "counted_trade",
+    "counted_at_start",
+    "counted_at_end",
+    "board_full",
+    "board_has_ties",
+    "counted_but_off_full_board",
+    "volume_saturated",
+    "extension_by_single_trade",
+    "extension_by_merged_volume",
+    "extension_full",
+    "extension_capped",
+    "extension_zero",
+    "multiple_extensions_in_run",
+    "crossed_start",
+    "crossed_end",
+    "ignored_before_start",
+    "ignored_after_end",
+    "ignored_failed_order",
+    "ignored_no_event",
+    "ignored_zero_volume",
+    "rejected_missing_participant",
+    "participant_closed",
+    "participant_reopened",
+    "lazy_create",
+];
 
 pub fn init_params(cfg: &Cfg) -> InitParams {
     let start = cfg.t0.saturating_add(cfg.start_delay);
@@ -851,6 +879,9 @@ impl Scenario for CompetitionSim {
             obs,
             recent: Vec::new(),
         };
+        for p in REACH_PROBES {
+            s.obs.probe_n(p, 0);
+        }
         // initial state
         if !s.after_step(s.m.end, false, false) {
             return;
@@ -891,7 +922,7 @@ impl Scenario for CompetitionSim {
             }
             let (now_, end_) = (s.w.clock.unix_timestamp, s.m.end);
             s.obs.event(|| format!("{st:?} now={now_} end_before={end_} counted={counted}"));
-            if s.obs.probes.contains_key("byzantine_accepted") {
+            if s.obs.probes.contains_key("anomaly_byzantine_accepted") {
                 return;
             }
             if !s.after_step(end_before, counted, ext) {
